@@ -172,6 +172,7 @@ func execStoreOp(sto blobserver.Storage, pool []poolBlob, refs []blob.Ref, in op
 // ---- programs ------------------------------------------------------------------------------------------
 
 type program struct {
+	Deps    *depsProgram // kind "ixdeps"
 	Kind    string
 	Max     int
 	Pool    []poolBlob
